@@ -193,7 +193,54 @@ def nested_containers_case(_=None):
   return n, n, viols, [dict(scenario='nested Buildables inside containers and named tuples', cases=n)]
 
 
+def equal_leaves_case(_=None):
+  """Leaves that compare equal but are different values (0.0 / -0.0, 0 / False / 0.0, tuples of
+  such, IntEnum members, 1 / True): each argument receives exactly the configured object's value and
+  type, wherever it sits (positional, keyword, *args, **kwargs, inside containers)."""
+  import enum
+  import math
+  from layerb import pool
+  class Level(enum.IntEnum):
+    LOW = 0
+    HIGH = 1
+  groups = [
+      [0.0, -0.0], [0, False, 0.0], [1, True, 1.0, Level.HIGH], [(0, 1), (False, True), (0.0, 1.0)],
+      [(0, (1,)), (False, (True,))], [(Level.LOW, Level.HIGH), (0, 1)], ['', b''], [(), ((),)],
+  ]
+  def sig(x):
+    if isinstance(x, float):
+      return ('float', math.copysign(1.0, x), x)
+    if isinstance(x, tuple):
+      return (type(x).__name__, tuple(sig(y) for y in x))
+    if isinstance(x, (list,)):
+      return ('list', tuple(sig(y) for y in x))
+    if isinstance(x, dict):
+      return ('dict', tuple((k, sig(y)) for k, y in x.items()))
+    return (type(x).__name__, repr(x))
+  viols = []
+  n = 0
+  for g in groups:
+    for order in (g, list(reversed(g))):
+      n += 1
+      cfg = fdl.Config(pool.fa, order[0], order[-1], c=list(order), k={'v': order}, extra=tuple(order))
+      cfg[fdl.VARARGS:] = list(order)
+      want = pool.fa(order[0], order[-1], list(order), *order, k={'v': order}, extra=tuple(order))
+      try:
+        got = fdl.build(cfg)
+      except Exception as e:   # pylint: disable=broad-except
+        got = ('raises', type(e).__name__)
+      if sig(got) != sig(want):
+        viols.append(dict(kinds=[], hasdef=[], store=repr(order), cls='Config', sig='equal-leaves', scenario=repr(order),
+                          what=f'configured leaves {order!r}: build passes {str(sig(got))[:200]}, the direct call '
+                               f'gets {str(sig(want))[:200]}'))
+  return n, n, viols, [dict(scenario='equal-but-distinct leaf values', cases=n)]
+
+
 def replay(case):
+  if case.get('sig') == 'equal-leaves':
+    r = equal_leaves_case()
+    m = [v for v in r[2] if v['scenario'] == case.get('scenario')]
+    return m[0]['what'] if m else None
   if case.get('sig') == 'nested-containers':
     r = nested_containers_case()
     m = [v for v in r[2] if v['scenario'] == case.get('scenario')]
